@@ -4,6 +4,7 @@ pub mod ast2sexp;
 pub mod caserun;
 pub mod common;
 pub mod consumer;
+pub mod derive_front;
 pub mod extract;
 pub mod gen;
 pub mod model;
